@@ -160,3 +160,15 @@ func mapsEqual(a, b map[string]string) bool {
 	}
 	return true
 }
+
+// DataString2 renders a flattened dataset canonically (sorted keys).
+func DataString2(m map[string]string) string {
+	var b strings.Builder
+	for _, k := range sortedKeys(m) {
+		b.WriteString(k)
+		b.WriteByte('=')
+		b.WriteString(m[k])
+		b.WriteByte('\n')
+	}
+	return b.String()
+}
